@@ -348,10 +348,10 @@ func init() {
 			}
 			return execSched(get(tier), job, c12Judge)
 		},
+		Pre: func(tier string, total *engine.JobResult) { c12RacePass(total) },
 		Post: func(tier string, total *engine.JobResult) {
 			// number of executions that deviate from the canonical schedule
 			total.Nontrivial = total.Evals - len(get(tier))
-			c12RacePass(total)
 			// binding: the schedule-independent observation must equal what the real binary prints
 			// for every --threads value
 			for i := range get(tier) {
